@@ -27,6 +27,8 @@ def run(v, workdir, replay):
     hists = chainlog.run_chain(v, workdir, "proposals", quick=(16, 2, 10), thorough=(16, 25, 20))
     check(v, hists)
     q = v.tier == "quick"
+    v.need("honest_blocks_containing_a_failing_relay_tx", 20)
+    v.need("honest_blocks_containing_a_failing_relay_tx_with_large_rollup_data", 5)
     v.need("honest_proposals", 150 if q else 4000)
     v.need("mutants_must_reject", 1000 if q else 30000)
     v.need("controls_accepted", 100)
@@ -44,6 +46,7 @@ def run(v, workdir, replay):
 def check(v, hists):
     for h in hists:
         by_height = collections.defaultdict(list)
+        built_by_id = {e["id"]: e for e in h.events if e.get("kind") == "tx_built"}
         for e in h.events:
             if "height" in e:
                 by_height[e["height"]].append(e)
@@ -57,6 +60,13 @@ def check(v, hists):
                 if e["kind"] == "lab_tx" and e["result"] != "ok" and "non-fatal" not in e["result"] and "NonFatal" not in e["result"]:
                     if not e["result"].startswith("err:`IbcRelay`"):
                         v.violate("C06/proposed-transaction-failed-fatally", "a transaction contained in an honest block failed fatally: " + e["result"][:120], wit)
+                if e["kind"] == "abci" and e["call"] == "prepare" and e["result"] == "ok":
+                    for i in e.get("tx_ids") or []:
+                        b = built_by_id.get(i)
+                        if b and b.get("intent", "").startswith("relay_fails_nonfatal"):
+                            v.saw("honest_blocks_containing_a_failing_relay_tx")
+                            if sum(a.get("len", 0) for a in b["actions"] if a["kind"] == "rollup_data_submission") >= 100_000:
+                                v.saw("honest_blocks_containing_a_failing_relay_tx_with_large_rollup_data")
                 if e["kind"] == "eci" and e.get("committed_power", 0) > 0:
                     v.saw("proposals_carrying_signed_vote_extensions")
                 if e["kind"] == "proposal_honest":
